@@ -32,6 +32,21 @@ func c14List(r *vfRand, size, ruleLen int, tag string) string {
 	return b.String()
 }
 
+// c14Stored is what a complete, successful download of body must leave on
+// disk, stated without the parser: every line that is a rule (not empty, not
+// a comment) trimmed, each followed by a newline.
+func c14Stored(body string) []byte {
+	var b strings.Builder
+	for _, ln := range strings.Split(body, "\n") {
+		ln = strings.TrimSpace(ln)
+		if ln == "" || ln[0] == '!' || ln[0] == '#' {
+			continue
+		}
+		b.WriteString(ln + "\n")
+	}
+	return []byte(b.String())
+}
+
 func TestVerifC14(t *testing.T) {
 	s := verifc14.Start(t, "filtering")
 	if s == nil {
@@ -95,10 +110,16 @@ func TestVerifC14(t *testing.T) {
 		f.ID = 1700000000 + nd
 		return d, f
 	}
+	path := func(f *FilterYAML) string { return strings.TrimPrefix(f.URL, srv.URL) }
 	upd := func(c *verifc14.Case, d *DNSFilter, f *FilterYAML, label string, expectErr bool) (bool, error) {
+		mu.Lock()
+		a := ans[path(f)]
+		mu.Unlock()
+		if !expectErr {
+			c.Want(c14Stored(a.body))
+		}
 		return c.SaveB(label, expectErr, func() (bool, error) { return d.update(f) })
 	}
-	path := func(f *FilterYAML) string { return strings.TrimPrefix(f.URL, srv.URL) }
 
 	// ---- prelude: one representative per class, small lists (byte mode)
 	s.TmpInDstDir()
@@ -120,7 +141,7 @@ func TestVerifC14(t *testing.T) {
 		upd(c, d, f, "update-500", true)
 	})
 	serve(path(f), answer{body: "||x.example^\n||y.example^\n||bad\x01char.example^\n||z.example^\n"})
-	s.Case("fail-binary", dst, nil, []string{"filtering", "dst-present", "bytes", "failed-download", "fail-after-partial-write"}, func(c *verifc14.Case) {
+	s.Case("fail-binary", dst, nil, []string{"filtering", "dst-present", "bytes", "failed-download", "refresh-fails-after-first-rule", "fail-binary-char"}, func(c *verifc14.Case) {
 		upd(c, d, f, "update-binary", true)
 	})
 	serve(path(f), answer{body: "<!DOCTYPE html><html>captive portal</html>\n"})
@@ -128,10 +149,26 @@ func TestVerifC14(t *testing.T) {
 		upd(c, d, f, "update-html", true)
 	})
 	{
+		// longer Content-Length announced, connection dropped in the middle of a line
 		body := c14List(r.Fork(1), 300, 30, "cut")
-		serve(path(f), answer{body: body, cutAt: len(body) / 2})
-		s.Case("fail-cut", dst, nil, []string{"filtering", "dst-present", "bytes", "failed-download", "fail-connection-cut"}, func(c *verifc14.Case) {
+		serve(path(f), answer{body: body, cutAt: len(body)/2 + 7})
+		s.Case("fail-cut-midline", dst, nil, []string{"filtering", "dst-present", "bytes", "failed-download", "refresh-fails-after-first-rule", "fail-connection-cut"}, func(c *verifc14.Case) {
 			upd(c, d, f, "update-cut", true)
+		})
+		// ... and exactly at a line boundary
+		at := strings.Index(body[len(body)/2:], "\n") + len(body)/2 + 1
+		serve(path(f), answer{body: body, cutAt: at})
+		s.Case("fail-cut-boundary", dst, nil, []string{"filtering", "dst-present", "bytes", "failed-download", "refresh-fails-after-first-rule", "fail-connection-cut"}, func(c *verifc14.Case) {
+			upd(c, d, f, "update-cut-boundary", true)
+		})
+		// fully transferred list with a NUL byte / an over-long line after the first rules
+		serve(path(f), answer{body: "||n1.example^\n||n2.example^\n||n3\x00.example^\n||n4.example^\n"})
+		s.Case("fail-nul", dst, nil, []string{"filtering", "dst-present", "bytes", "failed-download", "refresh-fails-after-first-rule", "fail-binary-char"}, func(c *verifc14.Case) {
+			upd(c, d, f, "update-nul", true)
+		})
+		serve(path(f), answer{body: "||l1.example^\n||l2.example^\n||" + strings.Repeat("y", 70000) + ".example^\n||l4.example^\n"})
+		s.Case("fail-long-line", dst, nil, []string{"filtering", "dst-present", "failed-download", "refresh-fails-after-first-rule", "fail-long-line"}, func(c *verifc14.Case) {
+			upd(c, d, f, "update-long-line", true)
 		})
 	}
 	s.TmpShared()
@@ -176,7 +213,7 @@ func TestVerifC14(t *testing.T) {
 			rl = 900
 		}
 		a, b := c14List(r.Fork(2), sz, rl, "A"), c14List(r.Fork(3), sz/2, rl, "B")
-		s.Case(fmt.Sprintf("size-%d", sz), dst, nil, []string{"filtering", "multi-save", "updated", "failed-download", fmt.Sprintf("size>=%dKiB", sz>>10)}, func(c *verifc14.Case) {
+		s.Case(fmt.Sprintf("size-%d", sz), dst, nil, []string{"filtering", "multi-save", "updated", "failed-download", "refresh-fails-after-first-rule", fmt.Sprintf("size>=%dKiB", sz>>10)}, func(c *verifc14.Case) {
 			serve(path(f), answer{body: a})
 			upd(c, d, f, "download", false)
 			serve(path(f), answer{body: b})
@@ -221,9 +258,13 @@ func TestVerifC14(t *testing.T) {
 					upd(c, d, f, fmt.Sprintf("%d-status", j), true)
 					c.Class("failed-download")
 				case 1:
-					serve(path(f), answer{body: body, cutAt: 1 + r.Intn(len(body)-1)})
+					cut := 1 + r.Intn(len(body)-1)
+					serve(path(f), answer{body: body, cutAt: cut})
 					upd(c, d, f, fmt.Sprintf("%d-cut", j), true)
 					c.Class("failed-download")
+					if len(c14Stored(body[:cut])) > 0 {
+						c.Class("refresh-fails-after-first-rule")
+					}
 				case 2:
 					if prev != "" {
 						serve(path(f), answer{body: prev})
